@@ -183,6 +183,40 @@ def run(F, R):
                 for x in only:
                     R.check("C11-R3", "reboot-question-guarded", guards_ and bv.dominated_by_edge(x, guards_), "reboot_allowed in the control arm only for on-demand requests",
                             "any control request during the reboot wait re-asks reboot_allowed (and may trigger the reboot)", lib.loc(bv, x))
+    # no other write to pending options inside a control arm: a whole-variable overwrite would let a later request downgrade the check
+    n_arm = 0
+    for (cx, sn, info) in sels:
+        bv = cx.bv
+        for k, a in info.items():
+            if a["kind"] != "control":
+                continue
+            arm_blocks = set()
+            for (_, b) in a["edges"]:
+                if S.nodes[b].ctx is cx:
+                    arm_blocks |= bv.reach_from([S.nodes[b].bi], avoid=[S.nodes[sn].bi])
+            others = set()
+            for k2, a2 in info.items():
+                if k2 != k:
+                    for (_, b) in a2["edges"]:
+                        if S.nodes[b].ctx is cx:
+                            others |= bv.reach_from([S.nodes[b].bi], avoid=[S.nodes[sn].bi])
+            # blocks of the arm from which the select is entered again (the request did not end the wait)
+            back = set(x for x in arm_blocks - others if S.nodes[sn].bi in bv.reach_from([x]))
+            if not back:
+                continue
+            n_arm += 1
+            bad = []
+            for l, ds in bv.defs.items():
+                if not bv.lty(l)["s"].endswith("CheckOptions"):
+                    continue
+                inside = [d for d in ds if d[0] in back]
+                outside = [d for d in ds if d[0] not in arm_blocks and d[0] in bv.reach0]
+                if inside and outside:
+                    bad += [lib.loc(bv, d[0]) for d in inside]
+            key = "%s:arm%d" % (bv.body.get("item") or bv.id.split("::")[-2], k)
+            R.check("C11-R3", "no-overwrite-of-pending-options:" + key, not bad, "a request taken while busy never replaces the pending options as a whole (only the guarded OnDemand upgrade writes them)",
+                    "a request taken while busy overwrites the pending check options (a later scheduled request can undo an on-demand upgrade): %s" % bad, S.nodes[sn].loc())
+    R.floor("C11-R3", "control arms that return to their select", n_arm, 2)
     R.floor("C11-R3", "OnDemand upgrades", n_up, 2)
 
     # ---------------------------------------------------------------- R4 gone error
